@@ -411,8 +411,8 @@ def run(ctx):
     nqs = ('',) if not ctx.thorough else ('', 'idp')
     fmts = ('P', 'T') if not ctx.thorough else ('P', 'T', 'E')
     CFG['alpha'] = (users, sps, nqs, fmts)
-    depth = 3 if not ctx.thorough else 4
-    max_states = 6000 if not ctx.thorough else 120000
+    depth = 4 if not ctx.thorough else 5
+    max_states = 60000 if not ctx.thorough else 150000
     seen = {}
     w0, _ = replay_history([])
     seen[canon_key(w0)] = []
